@@ -49,6 +49,7 @@ func runC14(c *Ctx, pr *PropertyRun) {
 	c18Upload(c, pr, "C14")
 	// per-response holders are fresh (a tolerated 404 leaves the zero value)
 	freshHolderRule(c, pr, "C14")
+	statusBeforeToleranceRule(c, pr, "C14")
 }
 
 func c14Gate(c *Ctx, pr *PropertyRun, entries []*ssa.Function) {
